@@ -7,6 +7,29 @@ ROOT = os.path.dirname(os.path.dirname(os.path.abspath(__file__)))
 ALL = [f"C{k:02d}" for k in range(1, 21)]
 
 CLAIMED = {
+    "C17": dict(
+        text=("create_scool is, in terms of the store model, root tables + one append-mode creation per cell (Cells.tla, Store.tla): "
+              "Store's frame condition (an append-mode creation changes only the link it names; MC_Store) is what lets every earlier "
+              "cell survive the later ones. Real single-cell files are created for six bin-table shapes x 1-4 cells with arbitrary "
+              "names and arbitrary (incl. empty) matrices x single table / single table with an extra column / per-cell tables with "
+              "per-cell extra columns x pixel input forms; TLC validates: recognised as scool, listing = given names, every cell "
+              "reads (ordinary Cooler interface, URI or handle) as exactly the pixel table given and the full matrix derived from "
+              "it, common table everywhere, the primary bin and chromosome columns of every cell are the SAME HDF5 objects as the "
+              "root's (object addresses), per-cell extra columns kept per cell, ValidCSR for every cell."),
+        design_ref="DESIGN.md section 6 C17", note="Trusted: TLC, h5py projection (object addresses via h5o.get_info). Cell names are legal HDF5 link names.",
+        technique="TLA+ store model checked by TLC + TLC trace validation of real single-cell files", category="model_checking"),
+    "C18": dict(
+        text=("Cells.tla defines renaming declaratively (ApplyRename on the name sequence); TLC checks for ALL name vectors (<=3 names over "
+              "a 4-name alphabet) and ALL chains of <=2 admissible partial maps that order/count are kept, lookups follow, untouched "
+              "names stay and a chain equals stepwise application (63k states). Real rename_chroms is run on coolers with 1-3 "
+              "chromosomes (fixed / variable / one-bin tables), chains of 1-3 partial maps (longer/shorter names, swaps, unknown "
+              "names), enum and integer chromosome encodings; after every renaming the live object AND a reopened one are "
+              "projected and TLC validates: names in original order (chromnames and chromosome table), lengths, bin labels and "
+              "coordinates, pixels, extent and two-region matrix fetch by every new name = what the position had before, vanished "
+              "names refused, everything else in the file (bins, pixels, indexes, attributes) byte-identical as canonical text, "
+              "ValidCSR."),
+        design_ref="DESIGN.md section 6 C18", note="Trusted: TLC, h5py/API projection. Maps are injective on the result.",
+        technique="TLA+ renaming algebra checked by TLC + TLC trace validation of real renaming chains", category="model_checking"),
     "C15": dict(
         text=("Store.tla models the HDF5 object graph (objects with hard / soft / external links, two files) and the operations "
               "create(w|a), cp, mv, ln (hard), ln (soft; external across files) and overwrite as functions on it, transcribing "
